@@ -514,7 +514,15 @@ Inv_C02 == FlushedNow =>
 \* a backend fault was injected earlier in this run (then leaks are allowed)
 HadFault == \E i \in ri .. l - 1 : Rec[i].e = "Done" /\ Rec[i].inj = 1
 
-Inv_C03 == (FlushedNow /\ ~HadFault) => F!WellFormed(vis, G) /\ F!Exact(vis, G)
+\* the device was dropped with operations not yet followed by a successful
+\* flush_meta (what the documentation calls losing the unflushed state): the
+\* next device starts from an image that may carry leaked clusters, as after
+\* a crash
+UncleanDrop == \E i \in ri .. l - 1 : Rec[i].e = "Drop" /\ Rec[i].unflushed > 0
+
+Inv_C03 == (FlushedNow /\ ~HadFault /\ ~UncleanDrop) => F!WellFormed(vis, G) /\ F!Exact(vis, G)
+\* ... but never an unusable one
+Inv_C03u == (FlushedNow /\ ~HadFault /\ UncleanDrop) => F!Safe(vis, G)
 
 \* C17b: after faults, a flush_meta that returns Ok leaves a file in which
 \* every acknowledged write is readable and nothing is under-counted
@@ -710,7 +718,7 @@ LenientViols ==
 StrictViols ==
   (IF Inv_C01 THEN <<>> ELSE << <<"C01", l - 1, C01Detail>> >>)
   \o (IF Inv_C02 THEN <<>> ELSE << <<"C02", l - 1, <<"blocks", BadBlocks>>>> >>)
-  \o (IF Inv_C03 THEN <<>> ELSE << <<"C03", l - 1, C03Detail>> >>)
+  \o (IF Inv_C03 /\ Inv_C03u THEN <<>> ELSE << <<"C03", l - 1, C03Detail>> >>)
   \o (IF Inv_C17 THEN <<>> ELSE << <<"C17", l - 1, <<"after-recovery", IF F!TablesOK(vis, G) THEN F!Undercounted(vis, G) ELSE {-1}, BadBlocks>>>> >>)
   \o (IF Inv_C18 THEN <<>> ELSE << <<"C18", l - 1, <<"flag clear but file stale", BadBlocks, IF F!TablesOK(vis, G) THEN F!Undercounted(vis, G) ELSE {-1}>>>> >>)
   \o (IF Inv_C10 THEN <<>> ELSE << <<"C10", l - 1, <<Last.dev, Last.k, Last.blk>>>> >>)
